@@ -60,7 +60,11 @@ impl GraphStore for GraphEngine {
         let i2e = Arc::new(self.scan_i2e_records());
         vpoint!("snapshot.after_i2e");
         let inner = self.begin_read_published();
-        let tombstoned_nodes: HashSet<InternalNodeId> = collect_tombstoned_nodes(inner.runs());
+        let mut tombstoned_nodes: HashSet<InternalNodeId> = collect_tombstoned_nodes(inner.runs());
+        // deletions that a compaction moved from the runs into the node table
+        tombstoned_nodes.extend(i2e.iter().enumerate().filter_map(|(iid, record)| {
+            (record.flags & crate::idmap::I2E_FLAG_TOMBSTONED != 0).then_some(iid as InternalNodeId)
+        }));
         StorageSnapshot {
             inner,
             i2e,
